@@ -69,8 +69,9 @@ def stepLine (st : St) (op : String) (a : List (String × String)) : St × Strin
   match parseOp op a with
   | none => (st, "bad-op")
   | some o =>
-    let (s', out) := if st.spec then Spec.step st.cfg st.store (argNat a "t") o
-                     else step st.cfg st.store (argNat a "t") o
+    let rej := arg a "bsfail" == "1"
+    let (s', out) := if st.spec then Spec.stepBS st.cfg rej st.store (argNat a "t") o
+                     else stepBS st.cfg rej st.store (argNat a "t") o
     ({ st with store := s' }, outStr out (arg a "ns") (arg a "typ"))
 
 end Cosi.Driver.Store
